@@ -11,6 +11,7 @@
 #include <gmssl/pkcs8.h>
 #include <gmssl/sm2.h>
 #include <gmssl/sm9.h>
+#include <gmssl/sm9_z256.h>
 #include <gmssl/x509_alg.h>
 #include <gmssl/x509.h>
 #include <gmssl/oid.h>
@@ -236,5 +237,35 @@ static void blk_composite(void) {
 	for (int mask = 1; mask < 64; mask++) { if (!vh_next()) continue; uint8_t nm[512], b[600]; size_t nl = 0, bl; if (!(mask & 1) || !(mask & 32)) continue; int r = x509_name_set(nm, &nl, sizeof nm, "CN", (mask & 2) ? "Beijing" : NULL, (mask & 4) ? "Haidian" : NULL, (mask & 8) ? "PKU" : NULL, (mask & 16) ? "CS" : NULL, (mask & 32) ? "Alice" : NULL); vh_eval(vh_mix(mask + 3201));
 		if (r != 1) { viol_rt("x509_name", "set-failed", "\"mask\":%d", mask); continue; } ENC2("x509_name", x509_name_to_der(nm, nl, NULL, &dl_), x509_name_to_der(nm, nl, &p_, &wl_), b, bl); const uint8_t *cp = b, *g; size_t il = bl, gl; if (x509_name_from_der(&g, &gl, &cp, &il) != 1 || il || gl != nl || memcmp(g, nm, nl)) viol_rt("x509_name", "roundtrip", "\"mask\":%d", mask); if (!der_tree_ok(b, bl, 0)) viol_rt("x509_name", "not-strict-der", "\"mask\":%d", mask); if (x509_name_check(nm, nl) != 1) viol_rt("x509_name", "own-output-fails-check", "\"mask\":%d", mask); }
 }
-static void body(void) { blk_decoders(); blk_text(); blk_composite(); blk_values(); }
+/* ---------- typed PEM writers and readers: what each *_to_pem writes, the matching *_from_pem reads back as the same object ---------- */
+#include <gmssl/cms.h>
+#include <gmssl/x509_req.h>
+#include <gmssl/x509_crl.h>
+static char *memtxt(size_t *tl, int (*w)(void *, FILE *), void *arg) { char *t = NULL; FILE *f = open_memstream(&t, tl); int r = w(arg, f); fclose(f); if (r != 1) { free(t); return NULL; } return t; }
+#define TP_BEGIN(nm) do { const char *tp_name = nm; char *txt = NULL; size_t tl = 0; FILE *f = open_memstream(&txt, &tl); int wr_, rd_ = 0, same_ = 0;
+#define TP_END(idx) fclose(g_); vh_eval(vh_mix((idx) + 880001)); if (wr_ != 1) viol_rt(tp_name, "pem-write-refused", "\"ret\":%d", wr_); else if (rd_ != 1 || !same_) viol_rt(tp_name, "pem-roundtrip", "\"read_ret\":%d,\"same\":%d,\"text_len\":%zu", rd_, same_, tl); free(txt); } while (0)
+static void blk_typed_pem(void) {
+	if (!vh_block_begin("typed-pem")) return; (void)memtxt;
+	for (int inst = 0; inst < 3; inst++) { if (!vh_next()) continue; venv_reset(4400 + inst); SM2_KEY k, k2; if (sm2_key_generate(&k) != 1) vh_harness_error("keygen");
+		TP_BEGIN("sm2_private_key") wr_ = sm2_private_key_to_pem(&k, f); fclose(f); FILE *g_ = fmemopen(txt, tl ? tl : 1, "r"); rd_ = sm2_private_key_from_pem(&k2, g_); same_ = rd_ == 1 && !memcmp(k.private_key, k2.private_key, 32) && sm2_public_key_equ(&k, &k2) == 1; TP_END(inst * 20 + 1);
+		TP_BEGIN("sm2_public_key_info") wr_ = sm2_public_key_info_to_pem(&k, f); fclose(f); FILE *g_ = fmemopen(txt, tl ? tl : 1, "r"); rd_ = sm2_public_key_info_from_pem(&k2, g_); same_ = rd_ == 1 && sm2_public_key_equ(&k, &k2) == 1; TP_END(inst * 20 + 2);
+		TP_BEGIN("sm2_private_key_info_encrypt") wr_ = sm2_private_key_info_encrypt_to_pem(&k, "Passw0rd", f); fclose(f); FILE *g_ = fmemopen(txt, tl ? tl : 1, "r"); rd_ = sm2_private_key_info_decrypt_from_pem(&k2, "Passw0rd", g_); same_ = rd_ == 1 && !memcmp(k.private_key, k2.private_key, 32); TP_END(inst * 20 + 3);
+		SM9_SIGN_MASTER_KEY sm, sm2; SM9_SIGN_KEY sk, sk2; SM9_ENC_MASTER_KEY em, em2; SM9_ENC_KEY ek, ek2; if (sm9_sign_master_key_generate(&sm) != 1 || sm9_sign_master_key_extract_key(&sm, "alice", 5, &sk) != 1 || sm9_enc_master_key_generate(&em) != 1 || sm9_enc_master_key_extract_key(&em, "bob", 3, &ek) != 1) vh_harness_error("sm9 keygen");
+		TP_BEGIN("sm9_sign_master_key") wr_ = sm9_sign_master_key_info_encrypt_to_pem(&sm, "pw", f); fclose(f); FILE *g_ = fmemopen(txt, tl ? tl : 1, "r"); rd_ = sm9_sign_master_key_info_decrypt_from_pem(&sm2, "pw", g_); same_ = rd_ == 1 && !memcmp(&sm.ks, &sm2.ks, sizeof sm.ks) && sm9_z256_twist_point_equ(&sm.Ppubs, &sm2.Ppubs) == 1; TP_END(inst * 20 + 4);
+		TP_BEGIN("sm9_sign_master_public_key") wr_ = sm9_sign_master_public_key_to_pem(&sm, f); fclose(f); FILE *g_ = fmemopen(txt, tl ? tl : 1, "r"); rd_ = sm9_sign_master_public_key_from_pem(&sm2, g_); same_ = rd_ == 1 && sm9_z256_twist_point_equ(&sm.Ppubs, &sm2.Ppubs) == 1; TP_END(inst * 20 + 5);
+		TP_BEGIN("sm9_sign_key") wr_ = sm9_sign_key_info_encrypt_to_pem(&sk, "pw", f); fclose(f); FILE *g_ = fmemopen(txt, tl ? tl : 1, "r"); rd_ = sm9_sign_key_info_decrypt_from_pem(&sk2, "pw", g_); same_ = rd_ == 1 && sm9_z256_point_equ(&sk.ds, &sk2.ds) == 1 && sm9_z256_twist_point_equ(&sk.Ppubs, &sk2.Ppubs) == 1; TP_END(inst * 20 + 6);
+		TP_BEGIN("sm9_enc_master_key") wr_ = sm9_enc_master_key_info_encrypt_to_pem(&em, "pw", f); fclose(f); FILE *g_ = fmemopen(txt, tl ? tl : 1, "r"); rd_ = sm9_enc_master_key_info_decrypt_from_pem(&em2, "pw", g_); same_ = rd_ == 1 && !memcmp(&em.ke, &em2.ke, sizeof em.ke) && sm9_z256_point_equ(&em.Ppube, &em2.Ppube) == 1; TP_END(inst * 20 + 7);
+		TP_BEGIN("sm9_enc_master_public_key") wr_ = sm9_enc_master_public_key_to_pem(&em, f); fclose(f); FILE *g_ = fmemopen(txt, tl ? tl : 1, "r"); rd_ = sm9_enc_master_public_key_from_pem(&em2, g_); same_ = rd_ == 1 && sm9_z256_point_equ(&em.Ppube, &em2.Ppube) == 1; TP_END(inst * 20 + 8);
+		TP_BEGIN("sm9_enc_key") wr_ = sm9_enc_key_info_encrypt_to_pem(&ek, "pw", f); fclose(f); FILE *g_ = fmemopen(txt, tl ? tl : 1, "r"); rd_ = sm9_enc_key_info_decrypt_from_pem(&ek2, "pw", g_); same_ = rd_ == 1 && sm9_z256_twist_point_equ(&ek.de, &ek2.de) == 1 && sm9_z256_point_equ(&ek.Ppube, &ek2.Ppube) == 1; TP_END(inst * 20 + 9);
+		/* certificate, certificate list, request, CMS */ uint8_t nm[128]; size_t nl = 0; x509_name_set(nm, &nl, sizeof nm, "CN", NULL, NULL, "Org", NULL, inst ? "subject-b" : "a"); uint8_t ser[3] = { 1, 2, (uint8_t)inst }; static uint8_t cert[1024], two[2048], back[4096]; uint8_t *p = cert; size_t cl = 0, bl2 = 0;
+		if (x509_cert_sign_to_der(X509_version_v3, ser, 3, OID_sm2sign_with_sm3, nm, nl, 1790000000 - 1000, 1790000000 + 100000, nm, nl, &k, NULL, 0, NULL, 0, NULL, 0, &k, SM2_DEFAULT_ID, SM2_DEFAULT_ID_LENGTH, &p, &cl) != 1) vh_harness_error("cert");
+		TP_BEGIN("x509_cert") wr_ = x509_cert_to_pem(cert, cl, f); fclose(f); FILE *g_ = fmemopen(txt, tl ? tl : 1, "r"); bl2 = 0; rd_ = x509_cert_from_pem(back, &bl2, sizeof back, g_); same_ = rd_ == 1 && bl2 == cl && !memcmp(back, cert, cl); TP_END(inst * 20 + 10);
+		memcpy(two, cert, cl); memcpy(two + cl, cert, cl); TP_BEGIN("x509_certs") wr_ = x509_certs_to_pem(two, 2 * cl, f); fclose(f); FILE *g_ = fmemopen(txt, tl ? tl : 1, "r"); bl2 = 0; rd_ = x509_certs_from_pem(back, &bl2, sizeof back, g_); same_ = rd_ == 1 && bl2 == 2 * cl && !memcmp(back, two, 2 * cl); TP_END(inst * 20 + 11);
+		{ static uint8_t req[1024]; uint8_t *q = req; size_t rl = 0; if (x509_req_sign_to_der(X509_version_v1, nm, nl, &k, (const uint8_t *)"", 0, OID_sm2sign_with_sm3, &k, SM2_DEFAULT_ID, SM2_DEFAULT_ID_LENGTH, &q, &rl) != 1) vh_harness_error("req");
+		  TP_BEGIN("x509_req") wr_ = x509_req_to_pem(req, rl, f); fclose(f); FILE *g_ = fmemopen(txt, tl ? tl : 1, "r"); bl2 = 0; rd_ = x509_req_from_pem(back, &bl2, sizeof back, g_); same_ = rd_ == 1 && bl2 == rl && !memcmp(back, req, rl); TP_END(inst * 20 + 12); }
+		{ static uint8_t cms[600]; size_t ml = 0; uint8_t msg[100]; memset(msg, 0x40 + inst, sizeof msg); if (cms_set_data(cms, &ml, msg, 37 + 30 * (size_t)inst) != 1) vh_harness_error("cms");
+		  TP_BEGIN("cms") wr_ = cms_to_pem(cms, ml, f); fclose(f); FILE *g_ = fmemopen(txt, tl ? tl : 1, "r"); bl2 = 0; rd_ = cms_from_pem(back, &bl2, sizeof back, g_); same_ = rd_ == 1 && bl2 == ml && !memcmp(back, cms, ml); TP_END(inst * 20 + 13); }
+		vh_sample("{\"block\":\"typed-pem\",\"instance\":%d,\"kinds\":13}", inst); }
+}
+static void body(void) { blk_decoders(); blk_text(); blk_composite(); blk_typed_pem(); blk_values(); }
 int main(int argc, char **argv) { vh_init(argc, argv); vh_guarded("C14", body, 120); return vh_finish(); }
